@@ -4,8 +4,8 @@
 package main
 
 import (
-	"github.com/theparanoids/ysshra/zzverifrt/vsync"
 	"fmt"
+	"github.com/theparanoids/ysshra/zzverifrt/vsync"
 	"os"
 
 	"github.com/theparanoids/ysshra/internal/zzverif/ev"
@@ -16,6 +16,9 @@ import (
 func installHooks() {
 	vnet.Hook = func(r *vnet.Reactor, op string, ready func() bool) {
 		if s := sched.Active(); s != nil && s.Current() >= 0 {
+			if !s.Own() {
+				s.Foreign("connection " + op + " on " + r.Name)
+			}
 			if connMonitor != nil {
 				connMonitor(r, op, s.Current(), true)
 			}
@@ -27,6 +30,9 @@ func installHooks() {
 	}
 	vnet.PipeHook = func(p *vnet.PipeEnd, op string, ready func() bool) {
 		if s := sched.Active(); s != nil && s.Current() >= 0 {
+			if !s.Own() {
+				s.Foreign("pipe " + op + " on " + p.Name())
+			}
 			s.Point("pipe-"+op, p.Name(), ready)
 		}
 	}
